@@ -15,7 +15,6 @@ RULE = ("structured URL strings, delimiter strings and random programs; each res
         "through its unpickled twin (lazy), all 36 accessors compared, plus ==, hash and ordering between the two; known "
         "finding F7 matched by the extracted classifier kf_f7; distinct = distinct program")
 
-KF = [("F7", "kf_f7")]
 
 
 def run(ctx):
@@ -27,7 +26,7 @@ def run(ctx):
     outs2 = suites.observe(ctx, "C09-unpickled-twin", twin)
     suites.apply_pred(ctx, "C09-unpickled-twin", "c09_pred", outs,
                       lambda k, i: outs[k][i] + " " + outs2[k][i],
-                      lambda k, i: {"program": progs[i], "direct": outs[k][i], "twin": outs2[k][i]}, kf=KF)
+                      lambda k, i: {"program": progs[i], "direct": outs[k][i], "twin": outs2[k][i]}, kf=core.kf_list(ctx))
     # equality, hash, ordering between original and twin
     ok_idx = [i for i in range(len(progs)) if outs["py"][i].startswith("[")][: (3000 if ctx.quick else 40000)]
     cmps = core.check_suite(ctx, "C09-compare-twin", [("compare", [progs[i], twin[i]]) for i in ok_idx], split=True)
